@@ -835,7 +835,8 @@ bool qstr_is_ip4addr(const char *str) {
             *s2 = '\0';
 
         int n;
-        if (qstrtest(isdigit, s1) == false || (n = atoi(s1)) <= 0 || n >= 256) {
+        if (*s1 == '\0' || qstrtest(isdigit, s1) == false
+                || (n = atoi(s1)) < 0 || n >= 256) {
             free(dupstr);
             return false;
         }
